@@ -85,3 +85,4 @@ W int v_pthread_mutexattr_settype(pthread_mutexattr_t *a, int t) { return pthrea
 W int v_pthread_mutex_init(pthread_mutex_t *m, const pthread_mutexattr_t *a) { return pthread_mutex_init(m, a); }
 W int v_pthread_mutex_lock(pthread_mutex_t *m) { return pthread_mutex_lock(m); }
 W int v_pthread_mutex_unlock(pthread_mutex_t *m) { return pthread_mutex_unlock(m); }
+W int v_pthread_atfork(void (*a)(void), void (*b)(void), void (*c)(void)) { return pthread_atfork(a, b, c); }
